@@ -72,15 +72,21 @@ def generate(rng, tier):
     if rng.random() < (0.001 if tier == "quick" else 0.003):
         # a realistically large map (over a million samples), short history of the fitting steps
         init["shape"] = rng.choice([[1024, 1024], [900, 1300], [1200, 1000]])
-        init["dtype"] = rng.choice(["f64", "f32"])
-        init["data"]["piston"] = rng.choice([init["data"]["piston"], 200.0])
-        if rng.random() < 0.5:
-            init["nan"]["kind"], init["nan"]["frac"] = "dropouts", 0.05
-        init["nan"]["kind"] = rng.choice(["none", "circle", "ragged"])
+        init["dtype"] = rng.choice(["f64", "f32", "f32"])
+        init["data"]["piston"] = rng.choice([init["data"]["piston"], 200.0, 200.0])
+        init["data"]["noise"] = 1.0
+        if rng.random() < 0.6:
+            # scattered single-sample dropouts: what breaks up long runs of a naive summation
+            init["nan"]["kind"], init["nan"]["frac"] = "dropouts", rng.choice([0.05, 0.12, 0.2])
+        else:
+            init["nan"]["kind"] = rng.choice(["none", "circle", "ragged"])
         enabled = {"read": 2, "remove_piston": 1, "remove_tiptilt": 5, "remove_power": 2, "crop": 1}
         names = list(enabled)
         wts = [enabled[k] for k in names]
         nsteps = rng.randint(2, 4)
+        big_tail = [{"op": "remove_piston"}]
+    else:
+        big_tail = []
     ops = []
     for _ in range(nsteps):
         k = rng.choices(names, wts)[0]
@@ -127,7 +133,8 @@ def generate(rng, tier):
         else:
             op = {"op": k}
         ops.append(op)
-    if rng.random() < 0.2:
+    ops = big_tail + ops
+    if rng.random() < 0.2 and not big_tail:
         # a directed tail: filtering needs fully valid data, which random histories rarely have, so
         # read some coordinates, crop to the valid box, fill what is left, then filter
         tail = [{"op": "read", "what": rng.sample(["x", "y", "r", "t"], rng.choice([1, 2, 4]))}] if rng.random() < 0.7 else []
